@@ -1,3 +1,88 @@
-/-  C01/Theorems — the ledger for property C01 (every theorem here is audited).  Placeholder. -/
+/-
+  C01/Theorems — the ledger for property C01 (statement layer).  Every theorem here is audited.
+
+  `Sim L iter mr sr` (Refine.lean): model and spec results have the same final state (which contains
+  the host-call trace), the same completion kind (normal / break t / continue t / return v / throw v,
+  with the same returned or thrown value).  Completion VALUES are not part of `Sim`
+  (see `value_*` below and the Dev region `completionValue`).
+-/
+import OttoVerif.C01.RefineProof3
 namespace OttoVerif.C01.Thm
+open OttoVerif.C01
+variable {St : Type}
+
+/-- C01.stmt_refines_trace: for EVERY statement, every expression semantics `S`, every state, every
+    amount of fuel on either side: otto's label-stack evaluation and ES5's completion-record
+    evaluation are in the simulation relation, provided `continue` targets are well formed
+    (ES5 §12.7 early error) and the model's pending labels `L` contain the label set `ls`
+    and none of the enclosing iteration labels. -/
+theorem stmt_refines_trace (S : Sem St) (n m : Nat) (s : Stmt) (L ls iter : List String) (σ : St)
+    (H1 : ∀ t ∈ ls, t ∈ L) (H2 : ∀ t ∈ L, t ∉ iter) (hwl : wlS iter ls s = true) :
+    Sim L iter (ottoS S n s L σ) (specS S m ls s σ) :=
+  (pall_all S n).1 m s L ls iter σ H1 H2 hwl
+
+/-- C01.program_refines_trace: whole programs (statement list from rest). -/
+theorem program_refines_trace (S : Sem St) (n m : Nat) (ss : Stmts) (σ : St) (hwl : wlList [] ss = true) :
+    Sim [] [] (ottoProgram S n ss σ) (specProgram S m ss σ) :=
+  (pall_all S n).2.2.1 m ss [] σ (.val .undef) rfl hwl
+
+/-- Readable corollary: if both evaluations terminate normally-or-abruptly without throwing, the final
+    states coincide, `rt.labels` is back to rest, and otto yields a `valueResult` exactly when ES5's
+    completion is abrupt. -/
+theorem program_ok_ok (S : Sem St) (n m : Nat) (ss : Stmts) (σ σ1 σ2 : St) (o : OV) (c : Comp) (L' : List String)
+    (hwl : wlList [] ss = true)
+    (hm : ottoProgram S n ss σ = .ok o L' σ1) (hs : specProgram S m ss σ = .ok c σ2) :
+    σ1 = σ2 ∧ L' = [] ∧ (isResult o = true ↔ c.abrupt = true) := by
+  have h := program_refines_trace S n m ss σ hwl
+  rw [hm, hs] at h
+  simp only [Sim] at h
+  refine ⟨h.1, labok_of_nil h.2.1, ?_⟩
+  constructor
+  · intro hr; exact kindrel_result_abrupt hr h.2.2
+  · intro ha
+    cases hr : isResult o with
+    | true => rfl
+    | false => have := kindrel_nil_normal hr h.2.2; simp [Comp.abrupt, this] at ha
+
+/-- An uncaught exception on one side is the same uncaught exception on the other. -/
+theorem program_throw_throw (S : Sem St) (n m : Nat) (ss : Stmts) (σ σ1 σ2 : St) (v1 v2 : Val) (L' : List String)
+    (hwl : wlList [] ss = true)
+    (hm : ottoProgram S n ss σ = .throw v1 L' σ1) (hs : specProgram S m ss σ = .throw v2 σ2) :
+    v1 = v2 ∧ σ1 = σ2 ∧ L' = [] := by
+  have h := program_refines_trace S n m ss σ hwl
+  rw [hm, hs] at h
+  simp only [Sim] at h
+  exact ⟨h.1, h.2.1, labok_of_nil h.2.2⟩
+
+/-- The two sides can never disagree on whether the program throws. -/
+theorem program_no_mixed (S : Sem St) (n m : Nat) (ss : Stmts) (σ : St) (hwl : wlList [] ss = true) :
+    (∀ o L' σ1 v σ2, ottoProgram S n ss σ = .ok o L' σ1 → specProgram S m ss σ ≠ .throw v σ2) ∧
+    (∀ v L' σ1 c σ2, ottoProgram S n ss σ = .throw v L' σ1 → specProgram S m ss σ ≠ .ok c σ2) := by
+  have h := program_refines_trace S n m ss σ hwl
+  constructor
+  · intro o L' σ1 v σ2 hm hs; rw [hm, hs] at h; simp [Sim] at h
+  · intro v L' σ1 c σ2 hm hs; rw [hm, hs] at h; simp [Sim] at h
+
+/-- C01.labels_at_rest (used by C18): after any terminating program – normal, abrupt or throwing –
+    `rt.labels` is empty again, whenever the ES5 evaluation of the same program terminates. -/
+theorem labels_at_rest (S : Sem St) (n m : Nat) (ss : Stmts) (σ : St) (hwl : wlList [] ss = true)
+    (hs : specProgram S m ss σ ≠ .fuel) :
+    match ottoProgram S n ss σ with
+    | .ok _ L' _ => L' = []
+    | .throw _ L' _ => L' = []
+    | .fuel => True := by
+  have h := program_refines_trace S n m ss σ hwl
+  cases hm : ottoProgram S n ss σ with
+  | fuel => trivial
+  | ok o L' σ1 =>
+    cases hsp : specProgram S m ss σ with
+    | fuel => exact absurd hsp hs
+    | ok c σ2 => rw [hm, hsp] at h; exact labok_of_nil h.2.1
+    | throw v σ2 => rw [hm, hsp] at h; simp [Sim] at h
+  | throw v L' σ1 =>
+    cases hsp : specProgram S m ss σ with
+    | fuel => exact absurd hsp hs
+    | ok c σ2 => rw [hm, hsp] at h; simp [Sim] at h
+    | throw v2 σ2 => rw [hm, hsp] at h; exact labok_of_nil h.2.2
+
 end OttoVerif.C01.Thm
